@@ -25,8 +25,11 @@ fn main() {
     }
     let id = args[1].as_str();
     if id == "probe" {
-        let calc = smartcalc::SmartCalc::default();
+        // MC_CFG='{"dec":".","thou":","}' selects a configuration (runner::Cfg as JSON)
+        let cfg: runner::Cfg = std::env::var("MC_CFG").ok().map(|j| serde_json::from_str(&j).expect("MC_CFG is not a Cfg")).unwrap_or_default();
+        let calc = cfg.build().expect("configuration rejected");
         for t in &args[3..] {
+            let t = &t.replace("\\n", "\n");
             let r = obs::eval(&calc, &args[2], t);
             println!("{:?} -> {}", t, r.brief());
             if let obs::Run::Done(o) = &r {
